@@ -355,15 +355,23 @@ def links_obs():
                functions=['state_check_process: region "for each dir in the disk" (cmdline/check.c, extracted mechanically)'], note='check and fix, excluded or not, every outcome of stat / mkancestor / mkdir')]
 
 
+CHECK_BIE = dict(region='check_block_is_enabled', file='cmdline/check.c', begin='static int block_is_enabled(struct snapraid_state* state, block_off_t i, struct snapraid_handle* handle, unsigned diskmax)',
+                 end='static int state_check_process(struct snapraid_state* state, int fix, struct snapraid_parity_handle** parity, block_off_t blockstart, block_off_t blockmax)', max_lines=80, expect_loops=2,
+                 proto='static int region_check_block_is_enabled(struct snapraid_state *state, block_off_t i, struct snapraid_handle *handle, unsigned diskmax)', epilogue='\treturn 0;')
+
+
 def writeback_obs():
-    return [Ob('check.data_verify.region', 'harness/h_writeback.c', 'h_data_verify', inject=[WRITEBACK, REPAIR_OUTCOME, DATA_VERIFY], unwind=18, small_path=True, timeout=1200, mem=8, cost=6, replay=False,
+    return [Ob('check.block_is_enabled', 'harness/h_writeback.c', 'h_check_block_is_enabled', inject=[WRITEBACK, REPAIR_OUTCOME, DATA_VERIFY, CHECK_BIE], unwind=8, small_path=True, timeout=900, mem=8, cost=4, replay=False, kind='bounded', bound='3 disk slots',
+               functions=['block_is_enabled (cmdline/check.c; whole body extracted mechanically, callees routed to stubs)'],
+               note='-e on blocks / files-with-errors filter / plain, 1..6 parity levels each excluded or not, per disk slot: present or not, every block state, file excluded or not; stripe bad or not'),
+            Ob('check.data_verify.region', 'harness/h_writeback.c', 'h_data_verify', inject=[WRITEBACK, REPAIR_OUTCOME, DATA_VERIFY, CHECK_BIE], unwind=18, small_path=True, timeout=1200, mem=8, cost=6, replay=False,
                functions=['state_check_process: region "read from the file" .. "now read and check the parity" (cmdline/check.c, extracted mechanically)'],
                note='every read outcome, block state BLK / CHG / REP, digest and recorded hash (hash size 16), migration flag, disk slot, fill of the failed set; handle_read / memhash by stub'),
-            Ob('check.repair_outcome.region', 'harness/h_writeback.c', 'h_repair_outcome', inject=[WRITEBACK, REPAIR_OUTCOME, DATA_VERIFY], unwind=12, small_path=True, timeout=1200, mem=8, cost=8, replay=False, kind='bounded',
+            Ob('check.repair_outcome.region', 'harness/h_writeback.c', 'h_repair_outcome', inject=[WRITEBACK, REPAIR_OUTCOME, DATA_VERIFY, CHECK_BIE], unwind=12, small_path=True, timeout=1200, mem=8, cost=8, replay=False, kind='bounded',
                bound='at most 3 failed entries per stripe, 1..6 parity levels, block size 8',
                functions=['state_check_process: region "try all the recovering strategies" .. "now write recovered files" (cmdline/check.c, extracted mechanically)'],
                note='every result of repair, bad / out-of-date pattern, recomputed and on-disk parity content, readable levels, used / valid parity; repair by stub (its own units)'),
-            Ob('check.writeback.region', 'harness/h_writeback.c', 'h_writeback', inject=[WRITEBACK, REPAIR_OUTCOME, DATA_VERIFY], unwind=12, small_path=True, timeout=1200, mem=8, cost=10, replay=False, kind='bounded',
+            Ob('check.writeback.region', 'harness/h_writeback.c', 'h_writeback', inject=[WRITEBACK, REPAIR_OUTCOME, DATA_VERIFY, CHECK_BIE], unwind=12, small_path=True, timeout=1200, mem=8, cost=10, replay=False, kind='bounded',
                bound='at most 3 failed entries per stripe, 1..6 parity levels',
                functions=['state_check_process: region "now write recovered files" (cmdline/check.c, extracted mechanically)'],
                note='check and fix, every bad / out-of-date / excluded / unsynced combination per entry, every disk slot and file position, every write outcome, every readability / accessibility / exclusion per parity level; handle_write / parity_write by recording stub')]
@@ -1134,7 +1142,7 @@ def c16(tier, seed):
 
 def c04(tier, seed):
     c15 = [o for o in PROPS['C15']['obligations'](tier, seed) if o.name in ('scrub.mark.region', 'scrub.classify.region', 'scrub.block_is_enabled', 'scrub.info_word')]
-    return [o for o in check_obs(tier) if o.name == 'check.blockcmp'] + sync_hash_obs() + c15 + [o for o in syncrd_obs() if o.name == 'scrub.data_reader'] + status_obs() + [o for o in openmode_obs() if o.name == 'handle.read'] + scrubpar_obs() + [o for o in writeback_obs() if o.name == 'check.repair_outcome.region']
+    return [o for o in check_obs(tier) if o.name == 'check.blockcmp'] + sync_hash_obs() + c15 + [o for o in syncrd_obs() if o.name == 'scrub.data_reader'] + status_obs() + [o for o in openmode_obs() if o.name == 'handle.read'] + scrubpar_obs() + [o for o in writeback_obs() if o.name in ('check.repair_outcome.region', 'check.data_verify.region', 'check.block_is_enabled')]
 
 
 def c01(tier, seed):
